@@ -37,10 +37,12 @@
 /* ghost fields a step on the mutex word may write */
 #ifdef VP_G_WHOLE
 #define VP_G_STEP vp_g
+#define VP_G_LOCK vp_g
 #define VP_G_ALL vp_g
 #else
 #define VP_G_STEP vp_g.hold, vp_g.spin, vp_g.waited, vp_g.dead, vp_g.set_desig, vp_g.longw_set, vp_g.enq_long, vp_g.enq_count, vp_g.last_new
 /* ... plus those written through the waiting flag and the semaphore stubs */
+#define VP_G_LOCK VP_G_STEP, vp_g.queued, vp_g.p_calls      /* what an acquisition (possibly sleeping) writes */
 #define VP_G_ALL VP_G_STEP, vp_g.queued, vp_g.p_calls, vp_g.v_calls, vp_g.cond_evals, vp_g.last_cond, vp_g.last_sem_outcome
 #endif
 
@@ -62,7 +64,7 @@ __CPROVER_requires (VP_MU_IS (mu) && VP_W_IS (w))
 __CPROVER_requires (VP_IDLE () && !vp_g.queued)
 __CPROVER_requires ((clear == 0 && !vp_g.waited) || (clear == MU_DESIG_WAKER && vp_g.waited))
 __CPROVER_ensures (vp_g.hold == VP_HOLD_OF (l_type) && !vp_g.spin && !vp_g.dead && !vp_g.waited && !vp_g.queued)
-__CPROVER_assigns (VP_G_ALL, VP_FW_DATA, mu->word, mu->waiters, w->cv_mu, w->cond, w->l_type, w->nw.waiting);
+__CPROVER_assigns (VP_G_LOCK, VP_FW_DATA, mu->word, mu->waiters, w->cv_mu, w->cond, w->l_type, w->nw.waiting);
 
 int nsync_mu_trylock (nsync_mu *mu)
 __CPROVER_requires (VP_TYPES_OK () && VP_MU_IS (mu) && VP_IDLE () && !vp_g.waited && !vp_g.queued)
@@ -79,12 +81,12 @@ __CPROVER_assigns (VP_G_STEP, mu->word);
 void nsync_mu_lock (nsync_mu *mu)
 __CPROVER_requires (VP_TYPES_OK () && VP_MU_IS (mu) && VP_IDLE () && !vp_g.waited && !vp_g.queued)
 __CPROVER_ensures (vp_g.hold == VP_WRITER && !vp_g.spin && !vp_g.dead)
-__CPROVER_assigns (VP_G_ALL, VP_FW_DATA, vp_my_w, vp_reg.my_waiting, mu->word, mu->waiters);
+__CPROVER_assigns (VP_G_LOCK, VP_FW_DATA, vp_my_w, vp_reg.my_waiting, mu->word, mu->waiters);
 
 void nsync_mu_rlock (nsync_mu *mu)
 __CPROVER_requires (VP_TYPES_OK () && VP_MU_IS (mu) && VP_IDLE () && !vp_g.waited && !vp_g.queued)
 __CPROVER_ensures (vp_g.hold == VP_READER && !vp_g.spin && !vp_g.dead)
-__CPROVER_assigns (VP_G_ALL, VP_FW_DATA, vp_my_w, vp_reg.my_waiting, mu->word, mu->waiters);
+__CPROVER_assigns (VP_G_LOCK, VP_FW_DATA, vp_my_w, vp_reg.my_waiting, mu->word, mu->waiters);
 
 /* this thread's waiter record: fresh, and its waiting flag is the one under the waiting-flag protocol */
 waiter *nsync_waiter_new_ (void)
@@ -102,19 +104,26 @@ __CPROVER_assigns ();
 void nsync_mu_unlock_slow_ (nsync_mu *mu, lock_type *l_type)
 __CPROVER_requires (VP_TYPES_OK () && VP_IS_LTYPE (l_type) && VP_MU_IS (mu))
 __CPROVER_requires (vp_g.hold == VP_HOLD_OF (l_type) && !vp_g.spin && !vp_g.dead)
-__CPROVER_ensures (vp_g.hold == VP_NONE && !vp_g.spin && (!vp_g.dead || vp_g.release_ctx))
+__CPROVER_ensures (vp_g.hold == VP_NONE && !vp_g.spin && vp_g.dead == (vp_g.release_ctx ? 1 : 0))
 __CPROVER_ensures (vp_g.queued == __CPROVER_old (vp_g.queued) && vp_g.waited == __CPROVER_old (vp_g.waited))
 __CPROVER_ensures (vp_g.p_calls == __CPROVER_old (vp_g.p_calls) && vp_g.last_sem_outcome == __CPROVER_old (vp_g.last_sem_outcome))
 __CPROVER_assigns (VP_G_ALL, VP_FW_DATA, mu->word, mu->waiters);
 
+/* (C04: inside a cv wait the mutex is released only after the waiter is on the cv's queue) */
 void nsync_mu_unlock (nsync_mu *mu)
 __CPROVER_requires (VP_TYPES_OK () && VP_MU_IS (mu) && vp_g.hold == VP_WRITER && !vp_g.spin && !vp_g.dead)
-__CPROVER_ensures (vp_g.hold == VP_NONE && !vp_g.spin)
+__CPROVER_requires (!vp_cvg.in_wait || vp_cvg.enq_done)
+__CPROVER_ensures (vp_g.hold == VP_NONE && !vp_g.spin && vp_g.dead == (vp_g.release_ctx ? 1 : 0))
+__CPROVER_ensures (vp_g.queued == __CPROVER_old (vp_g.queued) && vp_g.waited == __CPROVER_old (vp_g.waited))
+__CPROVER_ensures (vp_g.p_calls == __CPROVER_old (vp_g.p_calls) && vp_g.last_sem_outcome == __CPROVER_old (vp_g.last_sem_outcome))
 __CPROVER_assigns (VP_G_ALL, VP_FW_DATA, mu->word, mu->waiters);
 
 void nsync_mu_runlock (nsync_mu *mu)
 __CPROVER_requires (VP_TYPES_OK () && VP_MU_IS (mu) && vp_g.hold == VP_READER && !vp_g.spin && !vp_g.dead)
-__CPROVER_ensures (vp_g.hold == VP_NONE && !vp_g.spin)
+__CPROVER_requires (!vp_cvg.in_wait || vp_cvg.enq_done)
+__CPROVER_ensures (vp_g.hold == VP_NONE && !vp_g.spin && vp_g.dead == (vp_g.release_ctx ? 1 : 0))
+__CPROVER_ensures (vp_g.queued == __CPROVER_old (vp_g.queued) && vp_g.waited == __CPROVER_old (vp_g.waited))
+__CPROVER_ensures (vp_g.p_calls == __CPROVER_old (vp_g.p_calls) && vp_g.last_sem_outcome == __CPROVER_old (vp_g.last_sem_outcome))
 __CPROVER_assigns (VP_G_ALL, VP_FW_DATA, mu->word, mu->waiters);
 
 /* Spin until (*w & test) == 0, then *w = (*w | set) & ~clear with acquire order.  On the mutex word it is used
@@ -126,15 +135,23 @@ __CPROVER_requires (w != vp_reg.mu_word ||
 		     (set & ~(MU_SPINLOCK | MU_WAITING | MU_CONDITION)) == 0 && (clear & ~MU_ALL_FALSE) == 0 &&
 		     (test & ~MU_SPINLOCK) == 0 && !(vp_g.hold == VP_NONE && vp_g.waited) &&
 		     (!vp_g.observer || (set == MU_SPINLOCK && clear == 0))))
+__CPROVER_requires (w != vp_reg.cv_word ||
+		    ((test & CV_SPINLOCK) != 0 && (set & CV_SPINLOCK) != 0 && (set & ~(CV_SPINLOCK | CV_NON_EMPTY)) == 0 && clear == 0 && !vp_cvg.spin))
 __CPROVER_ensures ((__CPROVER_return_value & test) == 0)
+__CPROVER_ensures (w == vp_reg.mu_word || (vp_g.spin == __CPROVER_old (vp_g.spin) && vp_g.enq_count == __CPROVER_old (vp_g.enq_count) &&
+					    vp_g.enq_long == __CPROVER_old (vp_g.enq_long) && vp_g.last_new == __CPROVER_old (vp_g.last_new)))
+__CPROVER_ensures (w == vp_reg.cv_word || vp_cvg.spin == __CPROVER_old (vp_cvg.spin))
+__CPROVER_ensures (w != vp_reg.cv_word || (vp_cvg.spin == 1 && (__CPROVER_return_value & ~CV_NON_EMPTY) == 0 && *w == ((__CPROVER_return_value | set) & ~clear)))
 __CPROVER_ensures (w != vp_reg.mu_word ||
 		   (vp_g.spin == 1 && !vp_g.dead && vp_g.hold == __CPROVER_old (vp_g.hold) && vp_g.waited == __CPROVER_old (vp_g.waited) &&
 		    vp_g.queued == __CPROVER_old (vp_g.queued) && vp_g.set_desig == __CPROVER_old (vp_g.set_desig)))
-__CPROVER_assigns (*w, vp_g.spin, vp_g.enq_count, vp_g.enq_long, vp_g.last_new);
+__CPROVER_assigns (*w, vp_g.spin, vp_g.enq_count, vp_g.enq_long, vp_g.last_new, vp_cvg.spin);
 
 void nsync_mu_unlock_without_wakeup (nsync_mu *mu)
 __CPROVER_requires (VP_TYPES_OK () && VP_MU_IS (mu) && vp_g.hold == VP_WRITER && !vp_g.spin && !vp_g.dead)
-__CPROVER_ensures (vp_g.hold == VP_NONE && !vp_g.spin)
+__CPROVER_ensures (vp_g.hold == VP_NONE && !vp_g.spin && vp_g.dead == (vp_g.release_ctx ? 1 : 0))
+__CPROVER_ensures (vp_g.queued == __CPROVER_old (vp_g.queued) && vp_g.waited == __CPROVER_old (vp_g.waited))
+__CPROVER_ensures (vp_g.p_calls == __CPROVER_old (vp_g.p_calls) && vp_g.last_sem_outcome == __CPROVER_old (vp_g.last_sem_outcome))
 __CPROVER_assigns (VP_G_ALL, VP_FW_DATA, mu->word, mu->waiters);
 
 /* queue-link helper, abstracted in word-level proofs (its exact behaviour on the links is proved under C06/C17) */
@@ -171,6 +188,6 @@ int nsync_mu_wait_with_deadline (nsync_mu *mu, int (*condition) (const void *con
 __CPROVER_requires (VP_PRE_MU_WAIT (mu, condition))
 __CPROVER_ensures (VP_POST_MU_WAIT_HOLD (__CPROVER_old (vp_g.hold)))
 __CPROVER_ensures (VP_POST_MU_WAIT_RESULT (__CPROVER_return_value, condition))
-__CPROVER_assigns (VP_G_ALL, VP_FW_DATA, vp_my_w, vp_reg.my_waiting, mu->word, mu->waiters);
+__CPROVER_assigns (VP_G_ALL, VP_FW_DATA, vp_cvg.spin, vp_my_w, vp_reg.my_waiting, mu->word, mu->waiters);
 
 #endif
